@@ -73,9 +73,9 @@ def dag_shapes(tier):
         ops.append(o)
     for sh in fallible_source_variants(tier):
         o = G.ops_of(dict(sh, nodes=[dict(nd, variant=None) for nd in sh["nodes"]]))
-        for nd, op in zip(sh["nodes"], o):
+        for i, (nd, op) in enumerate(zip(sh["nodes"], o)):
             if nd.get("variant") == "fallible":
-                op["c"] = "DGF_" + G.type_name(sh["nodes"].index(nd), nd["kind"]) + "__0"
+                op["c"] = "DGF_" + G.type_name(i, nd["kind"]) + "__0"
         abstract.append(sh)
         ops.append(o)
     for sh in twice_variants(tier):
